@@ -101,14 +101,45 @@ def exhibits(r, clause):
     return any(v['kind'] == 'property' and v['sig'].get('clause') == clause for v in r['violations'])
 
 
-def graph_replay(ctx, name, c, cov, keep=None, next_='Next', primary=True):
+def model_check_all(ctx, jobs):
+    """ctx.model_check for several independent configurations at once.  jobs: (name, cfg, expected violation, kwargs)"""
+    from concurrent.futures import ThreadPoolExecutor
+    with ThreadPoolExecutor(max_workers=len(jobs)) as ex:
+        futs = [(name, want, ex.submit(tlc.run, SPEC, c, workdir=None, **kw)) for name, c, want, kw in jobs]
+        out = {}
+        for name, want, f in futs:
+            r = f.result()
+            ctx.add_tlc(name, r)
+            if want is None and not r.ok:
+                raise tlc.TLCError('%s: unexpected violation of %s\n%s' % (name, r.violation, r.output[-3000:]))
+            if want is not None and r.violation != want:
+                raise tlc.TLCError('%s: expected violation of %s, got %s' % (name, want, r.violation))
+            out[name] = r
+    return out
+
+
+def graph_dump(ctx, name, c, next_='Next'):
     wd = os.path.join(ctx.scratch, 'graph-' + name)
     os.makedirs(wd, exist_ok=True)
     dot = os.path.join(wd, 'graph.dot')
     r = tlc.run(SPEC, cfg(ctx, 'graph-' + name, c, invariants=['BackupOnlyCompleteTxns', 'IncrWithinFile', 'RepoShape', 'ObsDerived'], next_=next_),
-                workdir=wd, dump_dot=dot, timeout=1500, extra=('-fp', '18'))
+                workdir=wd, dump_dot=dot, timeout=1500, extra=('-fp', '18'), workers=max(2, (os.cpu_count() or 4) // 2))
     if not r.ok:
         raise tlc.TLCError('graph %s: %s\n%s' % (name, r.violation, r.output[-2000:]))
+    return r, dot
+
+
+def graphs_replay(ctx, specs, cov):
+    """specs: dicts(name, c, keep, next_, primary).  The graphs are dumped side by side, then replayed one by one."""
+    from concurrent.futures import ThreadPoolExecutor
+    with ThreadPoolExecutor(max_workers=len(specs)) as ex:
+        futs = [ex.submit(graph_dump, ctx, sp['name'], sp['c'], sp.get('next_', 'Next')) for sp in specs]
+        dumps = [f.result() for f in futs]
+    for sp, (r, dot) in zip(specs, dumps):
+        graph_replay(ctx, sp['name'], sp['c'], cov, r, dot, keep=sp.get('keep'), primary=sp.get('primary', True))
+
+
+def graph_replay(ctx, name, c, cov, r, dot, keep=None, primary=True):
     ctx.add_tlc('graph-' + name, r)
     g = rg.load(dot)
     os.remove(dot)
@@ -177,14 +208,14 @@ def run(ctx):
     q = ctx.quick
     cov = new_cov()
     # 1. the design (deviations cleared) satisfies the property for every option combination
-    ctx.model_check(SPEC, cfg(ctx, 'design', consts(ALL_OPTS, 3, 5 if q else 6, 3), INVARIANTS),
-                    name='design-16-options', timeout=900)
-    if not q:
-        ctx.model_check(SPEC, cfg(ctx, 'design-deep', consts((0, 2, 5, 10, 15), 4, 8, 4), INVARIANTS),
-                        name='design-5-options-4-chunks', timeout=1500)
     # 2. one deviation at a time set to the behaviour of the code: TLC exhibits the violated clause; the
     #    counterexample replayed on the tree decides which setting matches it
+    #    (the TLC runs of 1 and 2 are independent: they run side by side)
     small = (0, 2, 9)
+    jobs = [('design-16-options', cfg(ctx, 'design', consts(ALL_OPTS, 3, 5 if q else 6, 3), INVARIANTS), None, dict(timeout=900, workers=4))]
+    if not q:
+        jobs.append(('design-5-options-4-chunks', cfg(ctx, 'design-deep', consts((0, 2, 5, 10, 15), 4, 8, 4), INVARIANTS), None,
+                     dict(timeout=1500, workers=6)))
     plain = lambda g: g.get('clause') == 'recover' and g.get('damage') == 'none' and g.get('date') != 'short'   # noqa: E731
     CX = (  # name, deviations set, invariant violated, sub-relation, what the code must show, constant decided
         ('empty-incremental', ('QuickTrustsEmptyRange',), 'RecoverExact', 'NextSteadyClock2',
@@ -202,10 +233,13 @@ def run(ctx):
         ('short-date', ('ShortDateStrict',), 'RecoverExact', 'NextSteadyClock',
          lambda g: g.get('clause') == 'recover' and g.get('date') == 'short', 'ShortDateStrict'),
     )
+    for name, d, inv, nxt, shows, const in CX:
+        jobs.append(('as-code-' + name, cfg(ctx, 'cx-' + name, consts(small, 3, 7, 3, d), [inv], next_=nxt), inv,
+                     dict(timeout=600, workers=1, extra=('-fp', '18'))))
+    tlc_results = model_check_all(ctx, jobs)
     dev = set()
     for i, (name, d, inv, nxt, shows, const) in enumerate(CX):
-        r = ctx.model_check(SPEC, cfg(ctx, 'cx-' + name, consts(small, 3, 7, 3, d), [inv], next_=nxt),
-                            name='as-code-' + name, expect_violation=inv, timeout=600, workers=1, extra=('-fp', '18'))
+        r = tlc_results['as-code-' + name]
         res = replay_trace(ctx, r.trace, name, i)
         shown = any(v['kind'] == 'property' and shows(v['sig']) for v in res['violations'])
         if shown:
@@ -222,12 +256,16 @@ def run(ctx):
     # 3. conformance + property on the whole graph of the model of the code as it is
     if q:
         opts = option_sets(ctx.seed)
-        graph_replay(ctx, 'quick', consts(opts, 3, 6, 3, dev), cov)
+        # every kind of run (also a second one within a clock second) and damage to every file, 5 operations; then
+        # 6 operations with an advancing clock and damage to the newest generation
+        graphs_replay(ctx, [dict(name='quick', c=consts(opts, 3, 5, 3, dev)),
+                            dict(name='quick-steady-clock', c=consts(opts, 3, 6, 3, dev), next_='NextClassic')], cov)
     else:
-        graph_replay(ctx, 'all-options', consts(ALL_OPTS, 3, 6, 3, dev), cov)
+        sp = [dict(name='all-options', c=consts(ALL_OPTS, 3, 6, 3, dev)),
+              dict(name='all-options-steady-clock', c=consts(ALL_OPTS, 3, 7, 3, dev), next_='NextClassic')]
         for j in range(2):
-            opts = option_sets(ctx.seed + 1 + j)
-            graph_replay(ctx, 'deep-%d' % j, consts(opts, 4, 8, 4, dev, same=2), cov, keep=0.15, primary=False)
+            sp.append(dict(name='deep-%d' % j, c=consts(option_sets(ctx.seed + 1 + j), 4, 8, 4, dev, same=2), keep=0.15, primary=False))
+        graphs_replay(ctx, sp, cov)
     need = ['Commit', 'BeginTail', 'AbortTail', 'Pack', 'Backup', 'Damage:missing', 'Damage:trunc', 'Damage:alt']
     lacking = [a for a in need if not cov['actions'].get(a)]
     cov['packs_before_backup'] = {k: v for k, v in cov['decisions'].items() if k.startswith('pack-')}
@@ -250,8 +288,10 @@ def run(ctx):
     need_packs = ['pack-freed>quick', 'pack-freed>comparing', 'pack-%s>quick' % nothing, 'pack-%s>comparing' % nothing,
                   'pack-nothing-freed-after-incremental>quick']
     lacking += [k for k in need_packs if not pk.get(k)]
-    if lacking or not {'full', 'incr', 'nochange'} <= decs:
+    if (lacking or not {'full', 'incr', 'nochange'} <= decs) and not ctx.violations:
+        # (with unlisted violations the verdict stands: a divergence ends the replay of what lies behind it)
         raise RuntimeError('vacuous replay: never exercised %r, decisions seen %r, packs %r' % (lacking, sorted(decs), pk))
+    cov['not_exercised'] = lacking
     distinct, nontrivial = len(cov.pop('_distinct')), len(cov.pop('_nontrivial'))
     exhaustive = all(not g['sampled'] for g in cov['graphs'].values() if g['primary'])
     return ctx.finish({
@@ -279,6 +319,7 @@ def run(ctx):
         'packs_before_backup': cov['packs_before_backup'],
         'same_second_runs': cov['same_second_runs'],
         'damage_targets': cov['damage_targets'],
+        'not_exercised': cov['not_exercised'],
         'graphs': cov['graphs'],
         'tlc_counterexamples': cov['counterexamples'],
         'violations_by_signature': cov['violation_counts'],
